@@ -7,6 +7,7 @@ package main
 // error flags).
 
 import (
+	"net/url"
 	"fmt"
 	"go/types"
 )
@@ -340,4 +341,65 @@ func readerTag(fr *frame, r value) string {
 		return "nil"
 	}
 	return i.t.String()
+}
+
+// symUnescape percent-decodes a string with symbolic bytes (path mode: '+'
+// stays '+').  Forks on every position that can be '%'; an invalid escape
+// returns ok=false like url.PathUnescape's error.
+func symUnescape(ex *Exec, bs []*Term, plusIsSpace bool) ([]*Term, bool) {
+	ts := ex.ts
+	isHex := func(b *Term) *Term {
+		return ts.Or(byteRange(ts, b, '0', '9'), byteRange(ts, b, 'a', 'f'), byteRange(ts, b, 'A', 'F'))
+	}
+	hexVal := func(b *Term) *Term {
+		return ts.Ite(byteRange(ts, b, '0', '9'), ts.Sub(b, ts.BV(8, '0')),
+			ts.Ite(byteRange(ts, b, 'a', 'f'), ts.Sub(b, ts.BV(8, 'a'-10)), ts.Sub(b, ts.BV(8, 'A'-10))))
+	}
+	var out []*Term
+	for i := 0; i < len(bs); i++ {
+		if ex.branch(ts.Eq(bs[i], ts.BV(8, '%'))) {
+			if i+2 >= len(bs) {
+				return nil, false
+			}
+			if !ex.branch(ts.And(isHex(bs[i+1]), isHex(bs[i+2]))) {
+				return nil, false
+			}
+			out = append(out, ts.Bin("bvor", ts.Bin("bvshl", hexVal(bs[i+1]), ts.BV(8, 4)), hexVal(bs[i+2])))
+			i += 2
+			continue
+		}
+		if plusIsSpace {
+			out = append(out, ts.Ite(ts.Eq(bs[i], ts.BV(8, '+')), ts.BV(8, ' '), bs[i]))
+		} else {
+			out = append(out, bs[i])
+		}
+	}
+	return out, true
+}
+
+func init() {
+	unesc := func(plus bool, name string) externalFn {
+		return func(fr *frame, args []value) value {
+			if s, ok := args[0].(string); ok {
+				var r string
+				var err error
+				if plus {
+					r, err = url.QueryUnescape(s)
+				} else {
+					r, err = url.PathUnescape(s)
+				}
+				if err != nil {
+					return tuple{"", fr.i.mkError(err.Error())}
+				}
+				return tuple{r, iface{}}
+			}
+			out, ok := symUnescape(fr.ex(), strBytes(fr.ex().ts, args[0]), plus)
+			if !ok {
+				return tuple{"", fr.i.mkError("invalid URL escape")}
+			}
+			return tuple{mkStr(out), iface{}}
+		}
+	}
+	intrinsics["net/url.PathUnescape"] = unesc(false, "PathUnescape")
+	intrinsics["net/url.QueryUnescape"] = unesc(true, "QueryUnescape")
 }
